@@ -180,6 +180,19 @@ func (op _OpcodeType) decodeI(x uint32) (as abi.As, arg *abi.AsArgument, argRaw 
 	for i, ctx := range _AOpContextTable {
 		if ctx.Opcode == op {
 			if ctx.Funct3 == funct3 {
+				if ctx.HasShamt {
+					// shifts by a constant: the upper bits of the immediate field select the
+					// instruction (SRLI/SRAI), the lower 6 (RV64) or 5 (the *W forms) are the amount
+					hi, shamtMask := (x>>25)&0b_111_1110, int32(0b_11_1111)
+					if op == _OpBase_OP_IMM_32 {
+						hi, shamtMask = (x>>25)&0b_111_1111, int32(0b_1_1111)
+					}
+					if ctx.Funct7 != hi {
+						continue
+					}
+					arg.Imm = imm & shamtMask
+					argRaw.Imm = arg.Imm
+				}
 				as = abi.As(i)
 				break
 			}
